@@ -80,13 +80,16 @@ func (h *harness) scenarioCrashWAL(pre *gateFS, refDump nodeDump, nSyncs int) bo
 	if len(all) > maxPoints {
 		exhaustive = false
 		pts = nil
-		pick := map[int]bool{}
-		for len(pick) < maxPoints-2 {
-			pick[tp.Intn(len(all))] = true
+		// draw without replacement (a zero tape picks the first states)
+		rest := make([]int, len(all))
+		for i := range rest {
+			rest[i] = i
 		}
-		idx := make([]int, 0, len(pick))
-		for i := range pick {
-			idx = append(idx, i)
+		var idx []int
+		for len(idx) < maxPoints-2 {
+			k := tp.Intn(len(rest))
+			idx = append(idx, rest[k])
+			rest = append(rest[:k], rest[k+1:]...)
 		}
 		sort.Ints(idx)
 		for _, i := range idx {
